@@ -178,6 +178,21 @@ static void *producer(void *arg)
                                 s = cat_hold_exit(&at, ops[p][i] == 5 ? CAT_STATUS_OK : CAT_STATUS_ERROR);
                                 if (s != CAT_STATUS_OK && s != CAT_STATUS_ERROR_NOT_HOLD) other[p]++;
                                 break;
+                        case 11: {
+                                /* a paced producer: waits for room instead of giving up, so that one parser object accepts many
+                                 * hundreds of events (ring counters wrap) whatever the relative speed of the threads */
+                                int tries = 0;
+                                do {
+                                        s = cat_trigger_unsolicited_event(&at, &cmds[p], (r & 1) ? CAT_CMD_TYPE_TEST : CAT_CMD_TYPE_READ);
+                                        if (s == CAT_STATUS_ERROR_BUFFER_FULL) {
+                                                full[p]++;
+                                                sched_yield();
+                                        }
+                                } while (s == CAT_STATUS_ERROR_BUFFER_FULL && ++tries < 5000);
+                                if (s == CAT_STATUS_OK) accepted[p]++;
+                                else if (s != CAT_STATUS_ERROR_BUFFER_FULL) other[p]++;
+                                break;
+                        }
                         case 7:
                                 sched_yield();
                                 break;
